@@ -155,7 +155,7 @@ PROPS["C07"] = {
                      "u64::overflowing_mul/overflowing_add: standard semantics (assume_specification)",
                      "input length <= 512 MiB in this unit (i32 exponent arithmetic `*index as i32` is only safe below 2 GiB: documented limitation, see DESIGN.md)",
                      "typed integer targets / f32 narrowing happen in serde's primitive impls (T4)"],
-    "level_text": "Verus proof for all inputs that sonic_number::parse_number consumes exactly the number grammar (end offset exact, Err only for grammar failure or non-finite float), that every plain integer literal within u64 / i64 is returned as that exact integer with the right classification (incl. the 19/20-digit boundary and i64::MIN), that the fraction reader accumulates exactly the first digits, and that parse_exponent is exact; float rounding itself is assumed (T5)",
+    "level_text": "Verus proof for all inputs that sonic_number::parse_number consumes exactly the number grammar (end offset exact, Err only for grammar failure or non-finite float), that every plain integer literal within u64 / i64 is returned as that exact integer with the right classification (incl. the 19/20-digit boundary and i64::MIN), that the fraction reader accumulates exactly the first digits, and that parse_exponent is exact; Kani complete proofs of the leaves of the big-decimal float fallback (is_8digits == eight ASCII digits for all u64, read_u64 / write_u64 windows, Decimal::round / try_add_digit inside the 768-byte buffer and inside u64 under the stated type invariant); float rounding itself is assumed (T5)",
     "level_note": "the exact-integer half and the scanners are proved; the correctly-rounded-float half is an assumption",
     "technique": TECH_VK,
     "explanation": "parse_number: lenient_end / is_plain_int / dec_val specs; parse_number_fraction: significand == old*10^k + digits",
